@@ -17,11 +17,11 @@ type c10Case struct {
 	Stack    StackCfg `json:"stack"`
 	Outcomes []int    `json:"outcomes"` // one releasing holder per entry (completion outcome)
 	Waiters  int      `json:"waiters"`
-	Order    []int    `json:"order"`            // spawn order: actor ids 0..H-1 = holders, H..H+W-1 = waiters
-	Yields   []uint8  `json:"yields"`           // yield counts at successive schedule points
+	Order    []int    `json:"order"`             // spawn order: actor ids 0..H-1 = holders, H..H+W-1 = waiters
+	Yields   []uint8  `json:"yields"`            // yield counts at successive schedule points
 	Cancels  []int    `json:"cancels,omitempty"` // waiters (by index) whose context is cancelled at the scenario instant (actor ids H+W, H+W+1, ...)
-	Par      bool     `json:"par,omitempty"`    // real-parallel mode: spin at the schedule points instead of yielding
-	Ghosts   int      `json:"ghosts,omitempty"` // blocking/deadline kinds: earlier callers that blocked and gave up (cancelled) before the scenario
+	Par      bool     `json:"par,omitempty"`     // real-parallel mode: spin at the schedule points instead of yielding
+	Ghosts   int      `json:"ghosts,omitempty"`  // blocking/deadline kinds: earlier callers that blocked and gave up (cancelled) before the scenario
 }
 
 var c10Kinds = []StackCfg{
@@ -200,7 +200,7 @@ func TestC10_sampled_Coop(t *testing.T) {
 	kit.Check(t, kit.Prop[c10Case]{
 		ID: "C10", Quick: 3000, Thor: 400_000,
 		Rule: "blocking/deadline/queue limiter, full, then releasers and 1-3 waiters spawned at one virtual instant under a generated cooperative schedule (spawn order + yield counts at schedule points); oracle at quiescence with zero elapsed time; non-trivial = a completion finished between a waiter's failed attempt and its going to sleep",
-		Gen:  genC10, Run: runC10, NoShrink: false,
+		Gen:  genC10, Run: runC10, Timeout: 30 * time.Second, NoShrink: false,
 	})
 }
 
